@@ -359,12 +359,27 @@ def fallback_and_dispatch(rep):
     strat = sv[0][1]["s"] if sv else "strat"
     tv = [(n, b) for n, b in pfind("$t = $$e", fi.node, into_nested=False) if isinstance(n, ast.Assign) and isinstance(n.value, ast.IfExp) and "threshold" in norm(n.value)]
     thresh = tv[0][1]["t"] if tv else "thresh"
-    want = {STRATS[0]: [(f"{strat} is Strategy.ALL", True)],
-            STRATS[1]: [(f"{strat} is Strategy.COMPONENT", True), (f"{strat} is Strategy.ALL", False)],
-            STRATS[2]: [(f"{strat} is Strategy.COMPONENT", False), (f"{strat} is Strategy.ALL", False)]}
+    own = {STRATS[0]: "ALL", STRATS[1]: "COMPONENT", STRATS[2]: "BACKTRACK"}
+    members = ("ALL", "COMPONENT", "BACKTRACK")
+
+    def reached(c, value):
+        """do the strategy-related guards of call c hold when the dispatch variable is Strategy.<value>?"""
+        env = {strat: value}
+        env.update({f"Strategy.{m_}": m_ for m_ in members + ("PARTIAL",)})
+        for t, sense in guards_of(pm, c, fi.node):
+            if strat not in {x.id for x in ast.walk(t) if isinstance(x, ast.Name)}:
+                continue
+            t2 = ast.parse(norm(t).replace(" is not ", " != ").replace(" is ", " == "), mode="eval").body
+            if bool(eval_expr(t2, env)) != sense:
+                return False
+        return True
     for q, c in calls.items():
-        gs = [(norm(t), s) for t, s in guards_of(pm, c, fi.node)]
-        rep.ob("O6.5", "SHAPE", fi, gs == want[q], f"{q} under {gs}", "the strategy enum selects the like-named search", node=c)
+        try:
+            table = {m_: reached(c, m_) for m_ in members}
+            okd = table == {m_: (m_ == own[q]) for m_ in members}
+        except Undecided as exc:
+            table, okd = {"undecided": str(exc)}, None
+        rep.ob("O6.5", "SHAPE", fi, okd, f"{q} reached for {[m_ for m_, v_ in table.items() if v_ is True]}", "the strategy enum selects the like-named search", {"reached_for": table}, node=c)
         cal = rep.f(SM, ENG + q)
         names = [norm(a) for a in c.args]
         renamed = [{thresh: "threshold"}.get(n, n) for n in names]
